@@ -349,3 +349,134 @@ Proof.
     rewrite (walk_fixed h a (x :: s0) (rev c) Hns). rewrite rev_involutive. reflexivity.
   - cbn [app]. rewrite (walk_fixed h a (x :: s0) (rev c) Hns). rewrite rev_involutive. reflexivity.
 Qed.
+
+(* ---------------------------------------------------------------- 5. the round trip under walk_ok *)
+(* resolving a reference that is only a rootless path (plus query and fragment): the merge branch *)
+Lemma add_base_path_ref rel base : scheme base <> None -> scheme rel = None ->
+  is_host_set rel = false -> absolutePath rel = false -> pathSegs rel <> [] ->
+  add_base false rel base
+  = (URI_SUCCESS,
+     set_fragment (fragment rel) (fix_empty_trail_segment (set_scheme (scheme base) (set_query (query rel)
+       (fix_ambiguity (remove_dot_segments_absolute
+          (merge_path (copy_path (copy_authority empty_uri base) base) rel))))))).
+Proof.
+  intros Hb Hs Hh Ha Hp. unfold add_base, add_base_impl.
+  destruct (scheme base) as [sb|]; [|congruence]. cbv zeta.
+  rewrite Hs. cbn [is_some andb]. rewrite Hh, Ha.
+  destruct (pathSegs rel) as [|r1 rs]; [congruence|]. reflexivity.
+Qed.
+
+Lemma back_fields rel base : scheme base <> None -> scheme rel = None ->
+  is_host_set rel = false -> absolutePath rel = false -> pathSegs rel <> [] ->
+  let back := snd (add_base false rel base) in
+  let hb := is_host_set base in
+  let ab := absolutePath base in
+  scheme back = scheme base
+  /\ auth_fields back = auth_fields (copy_authority empty_uri base)
+  /\ pathSegs back = fixtrail_p hb (fixamb_p hb ab (rds_p hb ab (removelast (pathSegs base) ++ pathSegs rel)))
+  /\ absolutePath back = ab /\ query back = query rel /\ fragment back = fragment rel.
+Proof.
+  intros Hb Hs Hh Ha Hp. rewrite (add_base_path_ref rel base Hb Hs Hh Ha Hp). cbn [snd]. cbv zeta.
+  rewrite merge_nf. usimpl.
+  destruct (pathSegs rel) as [|r1 rs] eqn:Er; [congruence|].
+  rewrite rds_nf, fixamb_nf, fixtrail_nf. autorewrite with uri_db. usimpl.
+  repeat split.
+Qed.
+
+Lemma rds_p_nonempty h a s : s <> [] -> rds_p h a s = rds_walk false h a [] s.
+Proof. destruct s; [congruence|reflexivity]. Qed.
+
+Lemma fixamb_wf u : wf u = true -> fixamb_p (is_host_set u) (absolutePath u) (pathSegs u) = pathSegs u.
+Proof.
+  intros Hw. destruct (is_host_set u) eqn:Hh.
+  - rewrite (wf_host_abs u Hw Hh). apply fixamb_host.
+  - destruct (absolutePath u) eqn:Ha.
+    + pose proof (wf_abs_nodslash u Hw Hh Ha) as Hd.
+      destruct (pathSegs u) as [|[|c s] [|x r]]; try reflexivity. discriminate Hd.
+    + pose proof (wf_rootless_first u Hw Hh Ha) as Hf.
+      destruct (pathSegs u) as [|[|c s] [|x r]]; try reflexivity; discriminate Hf.
+Qed.
+
+Lemma fixtrail_not_lone u : lone_empty_hostless u = false ->
+  fixtrail_p (is_host_set u) (pathSegs u) = pathSegs u.
+Proof.
+  unfold lone_empty_hostless, fixtrail_p. destruct (is_host_set u); cbn [negb andb]; [reflexivity|].
+  destruct (pathSegs u) as [|[|c s] [|x r]]; try reflexivity. intros H. discriminate H.
+Qed.
+
+Definition nonnil {A} (l : list A) : bool := match l with [] => false | _ => true end.
+
+(* the sufficient condition: both absolute; same scheme; same authority (user info, host, port);
+   same root (both with a host, or both host-less and both rooted / both rootless); the common-prefix
+   walk of uriRemoveBaseUriMm stops with segments left on both sides (neither path is a prefix of the
+   other); no "." / ".." segment in the source path and in what is left of the base path; no NUL in
+   the source's segments (uriCompareRange stops at a NUL, like strncmp); both objects as the parser
+   makes them (wf), and the source not the object "host-less, path = one empty segment" (which the
+   parser never makes: uriFixEmptyTrailSegment) *)
+Definition walk_ok (src base : uri) : bool :=
+  is_some (scheme src) && is_some (scheme base)
+  && range_eqb (scheme src) (scheme base)
+  && equals_authority src base
+  && Bool.eqb (is_host_set src) (is_host_set base)
+  && (is_host_set src || Bool.eqb (absolutePath src) (absolutePath base))
+  && nonnil (fst (skip_common (pathSegs src) (pathSegs base)))
+  && nonnil (snd (skip_common (pathSegs src) (pathSegs base)))
+  && forallb nodot (pathSegs src)
+  && forallb nodot (snd (skip_common (pathSegs src) (pathSegs base)))
+  && forallb nonul (pathSegs src)
+  && wf src && wf base && negb (lone_empty_hostless src).
+
+Theorem roundtrip_walk src base : walk_ok src base = true ->
+  let r := snd (remove_base false src base) in
+  let back := snd (add_base false r base) in
+  fst (remove_base false src base) = URI_SUCCESS
+  /\ fst (add_base false r base) = URI_SUCCESS
+  /\ scheme back = scheme src
+  /\ auth_fields back = auth_fields (copy_authority empty_uri base)
+  /\ pathSegs back = pathSegs src /\ absolutePath back = absolutePath src
+  /\ query back = query src /\ fragment back = fragment src.
+Proof.
+  unfold walk_ok. intros H.
+  repeat (apply andb_true_iff in H; let H' := fresh "K" in destruct H as [H H']).
+  rename K into Hlone, K0 into Hwb, K1 into Hws, K2 into Hnul, K3 into Hdb, K4 into Hds,
+         K5 into Hbne, K6 into Hsne, K7 into Habs, K8 into Hhost, K9 into Hau, K10 into Hsch, K11 into Hbsome.
+  assert (scheme src <> None) as Hs by (destruct (scheme src); [discriminate|discriminate H]).
+  assert (scheme base <> None) as Hb by (destruct (scheme base); [discriminate|discriminate Hbsome]).
+  apply negb_true_iff in Hlone. apply eqb_prop in Hhost.
+  destruct (skip_common (pathSegs src) (pathSegs base)) as [s' b'] eqn:Hk. cbn [fst snd] in *.
+  assert (s' <> []) as Hs' by (destruct s'; [discriminate Hsne|discriminate]).
+  assert (b' <> []) as Hb' by (destruct b'; [discriminate Hbne|discriminate]).
+  destruct (skip_common_split _ _ _ _ Hk) as (c & cb & Eps & Epb & Ecc).
+  assert (forallb nonul c = true) as Hcn.
+  { rewrite Eps, forallb_app in Hnul. apply andb_true_iff in Hnul. apply Hnul. }
+  pose proof (seg_req_eq c cb Hcn Ecc) as Ec. subst cb.
+  assert (forallb nodot c = true /\ forallb nodot s' = true) as [Hdc Hds'].
+  { rewrite Eps, forallb_app in Hds. apply andb_true_iff in Hds. exact Hds. }
+  cbv zeta. rewrite (rb_walk src base s' b' Hs Hb Hsch Hau Hk).
+  set (P := parents b' ++ rest_segments (match parents b' with [] => true | _ => false end) s').
+  assert (P <> []) as HP.
+  { subst P. destruct s' as [|x s0]; [congruence|]. unfold rest_segments.
+    intros E. apply app_eq_nil in E. destruct E as [_ E]. apply app_eq_nil in E. destruct E as [_ E]. discriminate E. }
+  set (r := set_fragment (fragment src) (set_query (query src) (set_pathSegs P empty_uri))).
+  assert (pathSegs r = P) as EP by reflexivity.
+  assert (pathSegs r <> []) as HP' by (rewrite EP; exact HP).
+  split; [exact (remove_base_success false src base Hs Hb)|].
+  split; [rewrite (add_base_path_ref r base Hb eq_refl eq_refl eq_refl HP'); reflexivity|].
+  destruct (back_fields r base Hb eq_refl eq_refl eq_refl HP') as (B1 & B2 & B3 & B4 & B5 & B6).
+  (* the absolute-path flags agree *)
+  assert (absolutePath base = absolutePath src) as Eab.
+  { destruct (is_host_set src) eqn:Hhs.
+    - rewrite (wf_host_abs src Hws Hhs). symmetry in Hhost. rewrite (wf_host_abs base Hwb Hhost). reflexivity.
+    - cbn [orb] in Habs. apply eqb_prop in Habs. symmetry. exact Habs. }
+  split.
+  { rewrite B1. symmetry. apply range_eqb_eq; [|exact Hsch].
+    destruct (scheme src) as [ss|] eqn:Ess; [|reflexivity]. exact (wf_scheme src ss Hws Ess). }
+  split; [exact B2|].
+  split.
+  { rewrite B3, EP, Epb, <- Hhost, Eab. subst P.
+    rewrite rds_p_nonempty by (intros E; apply app_eq_nil in E; destruct E as [_ E]; exact (HP E)).
+    rewrite (walk_roundtrip _ _ c b' s' Hb' Hs' Hdc Hdb Hds'). rewrite <- Eps.
+    rewrite (fixamb_wf src Hws). apply fixtrail_not_lone. exact Hlone. }
+  split; [rewrite B4; exact Eab|].
+  split; [rewrite B5; reflexivity|rewrite B6; reflexivity].
+Qed.
